@@ -133,7 +133,7 @@ struct Cfg {
     entry: u8,
 }
 
-const ENTRY: [&str; 4] = ["tessellate_path", "tessellate", "builder", "with_ids"];
+const ENTRY: [&str; 6] = ["tessellate_path", "tessellate", "builder", "with_ids", "vw_const2", "vw_const_half"];
 
 fn join_name(j: LineJoin) -> &'static str {
     match j {
@@ -185,7 +185,23 @@ fn run_stroke(poly: &Poly, cfg: &Cfg, mesh: &mut Mesh) -> Result<(), String> {
             b.end(poly.closed);
             b.build()
         }
-        _ => tess.tessellate_with_ids(path.id_iter(), &path, None, &opts, &mut out),
+        3 => tess.tessellate_with_ids(path.id_iter(), &path, None, &opts, &mut out),
+        e => {
+            // variable line width with a CONSTANT attribute a (a power of two) and line_width = w / a:
+            // the stroke has width w everywhere, through the attribute-carrying route
+            // (tessellate_path -> tessellate_with_ids_vw)
+            let a: f32 = if e == 4 { 2.0 } else { 0.5 };
+            let p = poly.f32pts();
+            let mut b = Path::builder_with_attributes(1);
+            b.begin(p[0], &[a]);
+            for q in &p[1..] {
+                b.line_to(*q, &[a]);
+            }
+            b.end(poly.closed);
+            let pa = b.build();
+            let o2 = opts.with_line_width(cfg.w / a).with_variable_line_width(0);
+            tess.tessellate_path(&pa, &o2, &mut out)
+        }
     };
     r.map_err(|e| format!("{:?}", e))
 }
@@ -345,7 +361,7 @@ fn gen_cfg(rng: &mut Rng, w: f64, round_only: bool) -> Cfg {
         cap2: if round_only { LineCap::Round } else { *rng.pick(&caps) },
         ml: *rng.pick(&[1.0f32, 1.0, 1.25, 1.5, 2.0, 4.0]),
         tol: tol as f32,
-        entry: rng.below(4) as u8,
+        entry: rng.below(6) as u8,
     }
 }
 
@@ -648,7 +664,16 @@ fn stroke_case(ctx: &mut Ctx, fam: Fam) {
             let tol = cfg.tol as f64;
             let scale = poly.scale() + cfg.w as f64;
             // rounding allowance: f32 vertex arithmetic of the stroker
-            let delta = 2.0e-6 * scale + 1.0e-5 * hw;
+            let mut delta = 2.0e-6 * scale + 1.0e-5 * hw;
+            if cfg.entry >= 4 {
+                // the variable-width route measures every edge's direction with euclid's
+                // `Vector2D::angle_from_x_axis` = `Trig::fast_atan2` (a polynomial with a documented error
+                // of up to 2.04e-4 rad, Appendix A of DESIGN.md): the side points of an edge are rotated by
+                // up to that angle about its end points, i.e. displaced by up to 2.04e-4 * hw, and a miter /
+                // clip construction on top of them amplifies this by at most the join factor (< 3 in the
+                // no-fold regime).  Observed: 1.3e-4 * hw.  Stated allowance for these entries:
+                delta += 3.0 * 2.1e-4 * hw;
+            }
             let eps = 1.0e-5;
             let (prefix, mode, region) = match fam {
                 Fam::Cover => ("stroke.rect", 2, inner_region(&poly, hw, None)),
